@@ -124,6 +124,46 @@ theorem groupby_table (t : Table) (by_ : List String) (grp : String) (keys : Lis
   have hl : by_.length ≠ 0 := by cases by_ <;> simp_all
   simp [Table.groupby, hn, hb', hl, hlt, hk, bind, Except.bind, pure, Except.pure]
 
+/-- **ungroup ∘ groupby, table level**: for a non-empty table, explicit distinct key columns that
+leave at least one other column, and a `grp` name that is not a key, `d.groupby(by).ungroup()` has
+the non-key columns of `d` with the rows in the order of the stable sort of the keys — a permutation
+of the rows (`ungroup_groupby_ids`) — and key columns that repeat each group's key, `cmp`-equal to
+the rows' own keys (`unlist_listby_keys`). -/
+theorem ungroup_groupby (t : Table) (by_ : List String) (grp : String) (keys : List Val)
+    (hn : t.nrows ≠ 0) (hb : by_ ≠ []) (hnd : by_.Nodup) (hgb : grp ∉ by_)
+    (htn : ((t.others by_).map (·.1)).Nodup) (ho : t.others by_ ≠ [])
+    (hlt : by_.length ≠ t.cols.length)
+    (hk : t.keysOf (by_.map .col) = .ok keys) :
+    (match t.groupby by_ grp with
+      | .ok g => g.ungroup grp
+      | .error e => some (.error e)) = some (.ok (
+      ((t.others by_).map fun c => (c.1, pick c.2 (sortIdx keys))) ++
+      (by_.zipIdx.map fun c =>
+        (c.1, (listbyG keys).flatMap fun g => g.2.map fun _ => tupleGet c.2 g.1)))) := by
+  have hkl : keys ≠ [] := by
+    intro h; apply hn; rw [← keysOf_length hk, h]; rfl
+  have hgs : listbyG keys ≠ [] := by
+    intro h
+    have := (listbyG_perm keys).length_eq
+    rw [h] at this
+    simp at this
+    exact hkl (List.eq_nil_of_length_eq_zero this.symm)
+  rw [groupby_table t by_ grp keys hn hb hlt hk]
+  show VTable.ungroup (groupbyTable t by_ grp (listbyG keys)) grp = _
+  rw [ungroup_groupbyTable t by_ grp (listbyG keys) hb hnd htn hgb ho hgs]
+  congr 3
+  · apply List.map_congr_left
+    intro c _
+    congr 1
+    rw [← listbyG_flat keys]
+    simp [pick, List.map_flatMap]
+  · apply List.map_congr_left
+    intro c _
+    congr 1
+    apply flatMap_congr'
+    intro g _
+    exact (List.map_const' ..).symm
+
 /-- grouping on all columns is rejected (`ValueError`), as in the code -/
 theorem groupby_all_keys (t : Table) (grp : String) (hn : t.nrows ≠ 0) :
     t.groupby t.cols grp = .error .value := by
